@@ -21,7 +21,7 @@ class DtypeStrings(Contract):
     name = 'objects:Fxp.dtype-strings'
     layer = 3
     native_only = True
-    props = {'*': ['C12']}
+    props = {'*': ['C12'], 'render_default': ['C12', 'C02'], 'render_fxp': ['C12', 'C02'], 'render_Q': ['C12', 'C02'], 'render_none': ['C12', 'C02']}      # C02: the dtype string spells exactly the format
 
     def configs(self, tier):
         words = list(range(1, 65)) + [127, 128, 255, 256] if tier == 'quick' else list(range(1, 257))
